@@ -69,7 +69,26 @@ def gen_costs(rng):
     return {"mode": "int", "kind": rng.choice(["small", "small", "ties", "wide", "huge", "zero-leaf", "zero-any"]), "cseed": rng.randrange(1 << 30)}
 
 
+def gen_levels(rng, tier):
+    """small unary grammars whose weights span many orders of magnitude: the run passes more than 1000 (threshold 3: more
+    than 5000) EMPTY cost levels before the last program (unary rules of cost 1, a leaf of probability 1e-5 … 1e-7)"""
+    prims = [["f", ["->", "t", "t"]], ["c", "t"], ["d", "t"]]
+    if rng.random() < 0.5:
+        prims.insert(1, ["g", ["->", "t", "t"]])
+    case = {"family": "fin", "levels": True,
+            "build": {"src": "prims", "prims": prims, "forbidden": [], "request": rng.choice(["t", ["->", "int", "t"]]), "kind": "cfg",
+                      "max_depth": rng.choice([2, 3, 3, 4, 5]), "min_var": 1, "n_gram": rng.choice([2, 2, 1])},
+            "order": rng.choice(["built", "reversed", "shuffled"]), "oseed": rng.randrange(1 << 30),
+            "costs": {"mode": "prob", "weights": "skew-levels", "wseed": rng.randrange(1 << 30), "threshold": rng.choice([2, 2, 2, 3])},
+            "filter": None, "merges": [], "prefix": None, "fseed": None, "tier": tier}
+    if case["costs"]["threshold"] == 3:
+        case["build"]["max_depth"] = min(case["build"]["max_depth"], 3)      # > 5000 levels: keep the model run short
+    return case
+
+
 def gen_case(rng, i, tier):
+    if rng.random() < 0.07:
+        return gen_levels(rng, tier)
     case = {
         "family": "fin",
         "build": gen_build(rng, tier),
@@ -308,9 +327,11 @@ def instrument(en, cost_bound, round_cap, cl_cap=None):
         if c is not None and cost_bound is not None and c > cost_bound:
             st["over"] += 1         # the enumerator is shown ONE cost above the bound (a repaired loop stops there)
         if st["rounds"] > round_cap or st["over"] > 1:
-            st["reason"] = "bound"          # past every program of the language (or the round cap): it should have stopped
+            # past every program of the language: it should have stopped; the round cap alone (no cost bound: recursive
+            # grammar, or merges on a unary grammar) only means the run is unaffordable: inconclusive
+            st["reason"] = "bound" if (st["over"] > 1 or cost_bound is not None) else "budget"
             raise Limit()
-        if len(en._cost_list) > (cl_cap or CL_CAP) or (st["rounds"] % 4 == 0 and (en.programs_in_banks() > BANK_CAP or time.time() - st["t0"] > TIME_CAP)):
+        if len(en._cost_list) > (cl_cap or CL_CAP) or (st["rounds"] % 4 == 0 and (en.programs_in_banks() > BANK_CAP or time.time() - st["t0"] > (TIME_CAP if (cl_cap or 0) < 40000 else 60.0))):
             st["reason"] = "budget"         # unaffordable for the differential run: inconclusive, not a failure
             raise Limit()
         return nts, c
@@ -469,7 +490,17 @@ def run_case(case, M, tier="quick"):
     for attempt in range(6):
         if cs["mode"] == "prob":
             rng = random.Random(cs["wseed"])
-            weights = {S: {P: pick_weight(rng, cs["weights"], len(rs)) for P in rs} for S, rs in g.rules.items()}
+            if cs["weights"] == "skew-levels":
+                # unary rules: probability 0.99 / 0.999 (integer cost 1); leaves: 1/2, or 1e-5 … 1e-7 for the last one
+                big = Fraction(99, 100) if cs["threshold"] <= 2 else Fraction(999, 1000)
+                weights = {}
+                for S, rs in g.rules.items():
+                    leaves = [P for P, rl in rs.items() if not rl[0]]
+                    weights[S] = {P: (big if rl[0] else Fraction(1, 2)) for P, rl in rs.items()}
+                    if len(leaves) >= 2:
+                        weights[S][leaves[-1]] = Fraction(1, 10 ** rng.choice([5, 6, 7]))
+            else:
+                weights = {S: {P: pick_weight(rng, cs["weights"], len(rs)) for P in rs} for S, rs in g.rules.items()}
             pcfg = ProbDetGrammar(g, {S: {P: float(w) for P, w in ws.items()} for S, ws in weights.items()})
             thr = cs["threshold"]
 
@@ -507,6 +538,8 @@ def run_case(case, M, tier="quick"):
         except E.Dangling:
             return {"trivial": "dangling-rule(grammar not clean)"}
         cmax = max(c for _, c in lang)
+        if case.get("levels") and all(len(args) <= 1 for rs in g.rules.values() for args, _ in rs.values()):
+            break           # unary grammar: thousands of cost levels are affordable, that is the point of the family
         work, nvals = work_estimate(g, cost, cmax)
         if work <= MAX_WORK[tier]:
             break
@@ -547,14 +580,18 @@ def run_case(case, M, tier="quick"):
     lang_progs = sorted((p for p, _ in lang), key=show) if lang is not None else []
     plan = plan_of(case, len(lang_progs))
     unary = all(len(args) <= 1 for rs in g.rules.values() for args, _ in rs.values())
-    if rec or (case.get("merges") and unary):
+    import inspect as _inspect
+    fixed_loop = "max_cost" in _inspect.getsource(BeeSearch.generator)
+    if rec or (case.get("merges") and unary and not fixed_loop):
         cost_bound = None       # after a merge the loop stops after 1000 unproductive rounds: affordable on unary grammars
     else:
         cost_bound = max(c for _, c in lang)
     # ---- first run: bounded by the cost of the most expensive program (+ round cap)
     maxar = max([len(args) for rs in g.rules.values() for args, _ in rs.values()] + [1])
     cl_cap = min(CL_CAP, int((4 * MAX_WORK[tier]) ** (1.0 / maxar)) + 1)
-    st = instrument(en, cost_bound, 5000 if cost_bound is None else ROUND_CAP, cl_cap)
+    if case.get("levels") and maxar <= 1:
+        cl_cap = 40000
+    st = instrument(en, cost_bound, (5000 if rec else 60000) if cost_bound is None else ROUND_CAP, cl_cap)
     steps, script, err, cut, it = run_script(en, plan, lang_progs, 4 * limit + 10)
     if rec:
         # no a-priori work estimate on a recursive grammar: halve the prefix until the run is affordable for the model
@@ -602,7 +639,12 @@ def run_case(case, M, tier="quick"):
     if len(members) > 120:
         members = prng.sample(members, 120)
     probes = members + [mutate(prng, p, syms) for p in members[:40]]
-    ans = M.ask([Sym("bee.run"), gw, [wire.prog(p) for p in rejected], scriptw, FUEL, int(nprog), [wire.prog(p) for p in probes]])
+    # which variant of the generator loop does the tree implement? (proposed repair of C12-F11: stop at the maximal cost)
+    import inspect
+    fixed = "max_cost" in inspect.getsource(BeeSearch.generator)
+    out["fixed"] = fixed
+    maxc = Sym("none") if (lang is None or not fixed) else int(max(c for _, c in lang))
+    ans = M.ask([Sym("bee.run"), gw, [wire.prog(p) for p in rejected], scriptw, FUEL, int(nprog), [wire.prog(p) for p in probes], fixed, maxc])
     corr = out["corr"]
     out["wire"] = wire
     if ans[0] == "undef":
@@ -640,6 +682,12 @@ def run_case(case, M, tier="quick"):
             raise RuntimeError(f"Lean specification and harness oracle disagree on {show(p)}: spec {(mem, c)} oracle {oc}")
     hyps = ans[13]
     out["hyps"] = {"hasCosts": hyps[0] == "1", "nonneg": hyps[1] == "1", "posArg": hyps[2] == "1"}
+    # the decidable hypotheses of the order / no-duplicates / coverage theorems hold on every real rule table (a dict)
+    names = ["nonnegW", "dictOK", "initFrontOK", "initCoverOK"]
+    for nm, v in zip(names, hyps[3:7]):
+        out["hyps"][nm] = v == "1"
+    if len(hyps) >= 7 and not all(out["hyps"][nm] for nm in names[1:]):
+        raise RuntimeError(f"a decidable hypothesis of the bee theorems fails on a real rule table: {out['hyps']}")
     if out["hyps"]["posArg"] == zero:
         raise RuntimeError("Lean hypothesis posArgCosts and the harness classifier disagree")
     return out
@@ -668,6 +716,14 @@ def base_tags(case, r):
         n = len(r["lang"])
         tags.append("lang<10" if n < 10 else "lang<100" if n < 100 else "lang<1000" if n < 1000 else "lang>=1000")
     tags.append("zero-cost-rule-with-arguments(C02-F6 region)" if r["zero"] else "positive-costs")
+    tags.append("impl:stops-at-max-cost(C12-F11 repaired)" if r.get("fixed") else "impl:stops-on-program-count(as is)")
+    empty = r.get("rounds", 0) - len(flat(r["steps"]))
+    if case.get("levels"):
+        tags.append("skew-levels-family")
+    if empty > 5000:
+        tags.append("empty-levels>5000")
+    elif empty > 1000:
+        tags.append("empty-levels>1000")
     if r.get("budget_cut"):
         tags.append("inconclusive:run-cut-by-time/size-budget")
     elif r.get("cut"):
